@@ -320,12 +320,18 @@ def check_onclose_once(run, key_prefix, case, books, label=""):
         for s in book.sessions:
             run.R.count("onclose_checked")
             n = len(s.closes)
-            opened_ok = s.opens >= 1 and not (getattr(s, "script", None) and s.script.raise_in_open)
+            # a session is attached once it was handed the transport (onOpen(transport) was invoked) - whether or not its
+            # onOpen then raised: "in every case the session is told exactly once that the transport is gone"
+            opened_ok = s.opens >= 1
+            open_raised = bool(getattr(s, "script", None) and s.script.raise_in_open)
+            if opened_ok and open_raised:
+                run.R.count("open_raise_onclose_checked")
             kp = key_prefix if side is None else "%s/%s" % (key_prefix, side)
             if opened_ok and n != 1:
                 run.violation("%s/onclose-x%d" % (kp, n),
-                              "attached session was told %d times that the transport is gone%s" % (n, label),
-                              {"events": [list(e) for e in s.events][-8:]}, case)
+                              "attached session%s was told %d times that the transport is gone%s"
+                              % (" (its onOpen raised after it was handed the transport)" if open_raised else "", n, label),
+                              {"events": [list(e) for e in s.events][-8:], "onOpen_raised": open_raised}, case)
                 ok = False
             elif not opened_ok and n > 1:
                 run.violation("%s/onclose-x%d" % (kp, n), "session got onClose %d times" % n,
@@ -1089,10 +1095,11 @@ def run_rs_limit_pair(run, case):
 # =================================================================================================
 
 RS_CORRUPTIONS = ["ftype-1", "ftype-2", "ftype-3", "ftype-7", "ftype-rsv", "ftype-rsv0", "garbage", "truncated", "nonlist", "badtype", "empty",
-                  "sess-runtime", "sess-protocol", "open-raises", "ctor-raises", "out-of-phase"]
+                  "sess-runtime", "sess-protocol", "open-raises", "open-raises-early", "open-raises-sent", "ctor-raises", "out-of-phase"]
 WS_CORRUPTIONS = ["flip-opcode", "garbage", "truncated", "nonlist", "badtype", "empty",
-                  "sess-runtime", "sess-protocol", "open-raises", "ctor-raises", "out-of-phase"]
-INTERNAL = ("sess-runtime", "open-raises", "ctor-raises")
+                  "sess-runtime", "sess-protocol", "open-raises", "open-raises-early", "open-raises-sent", "ctor-raises", "out-of-phase"]
+OPEN_RAISES = {"open-raises": True, "open-raises-early": "early", "open-raises-sent": "sent"}
+INTERNAL = ("sess-runtime", "open-raises", "open-raises-early", "open-raises-sent", "ctor-raises")
 
 
 def corruption_class(ckind):
@@ -1149,8 +1156,8 @@ def run_corrupt(run, case):
         script = E.SessionScript(raise_on_message=pos, raise_exc="runtime")
     elif ckind == "sess-protocol":
         script = E.SessionScript(raise_on_message=pos, raise_exc="protocol")
-    elif ckind == "open-raises":
-        script = E.SessionScript(raise_in_open=True)
+    elif ckind in OPEN_RAISES:
+        script = E.SessionScript(raise_in_open=OPEN_RAISES[ckind])
     elif ckind == "ctor-raises":
         script = E.SessionScript(raise_in_ctor=True)
     elif ckind == "out-of-phase":
@@ -1160,7 +1167,7 @@ def run_corrupt(run, case):
     rp.rng = random.Random(case["seed"] + 7)
     attached = rp.handshake()
     book = rp.book
-    if ckind in ("open-raises", "ctor-raises"):
+    if ckind in OPEN_RAISES or ckind == "ctor-raises":
         good = []
         specs = gen_specs(rng, 2, "g")
         stream = b"".join(rp.frame(rp.encode(sp)) for sp in specs)
@@ -1213,7 +1220,7 @@ def run_corrupt(run, case):
     R.seen("corrupt_kinds", "%s/%s/%s" % (tr, role, ckind))
     # -- what was delivered: the good prefix intact; later units only if intact members in order; never the corrupted unit
     sess = book.last
-    if not real and ckind not in ("open-raises", "ctor-raises"):
+    if not real and ckind not in OPEN_RAISES and ckind != "ctor-raises":
         check_delivery(run, key, case, good, sess, "in", prefix_only=need_prefix + (1 if ckind.startswith("sess-") else 0))
     # -- the transport ends closed
     esc = _exc_names(env, [ep])
@@ -1239,7 +1246,7 @@ def run_corrupt(run, case):
             R.seen("ws_statuses", "%s/%s" % (ckind, seen))
             if seen is not None and seen not in accept:
                 run.violation(key + "/wrong-status-%s" % seen, "connection failed with status %s, expected %s" % (seen, sorted(accept)), detail, case)
-            if not fbd and codes and not wire and not torn_down and ckind != "ctor-raises" and ckind != "open-raises":
+            if not fbd and codes and not wire and not torn_down and ckind != "ctor-raises" and ckind not in OPEN_RAISES:
                 run.violation(key + "/no-close-frame", "failByDrop=False but no close frame was written", detail, case)
     elif ckind == "ftype-rsv0" and not (closed_by_lib or ep.lost):
         # grey zone (reserved bits ignored): then the frame must have been treated as a regular message, intact and in order
@@ -1284,8 +1291,8 @@ def run_pair_boom(run, case):
     policy = case["policy"]
     victim = case["victim"]
     key = "C13/%s/%s/%s/corrupt/%s" % (tr, fw, victim, corruption_class(ckind))
-    if ckind == "open-raises":
-        script = E.SessionScript(raise_in_open=True)
+    if ckind in OPEN_RAISES:
+        script = E.SessionScript(raise_in_open=OPEN_RAISES[ckind])
     else:
         script = E.SessionScript(raise_on_message=pos, raise_exc="protocol" if ckind == "sess-protocol" else "runtime")
     options = {"failByDrop": case.get("fail_by_drop", True)} if tr == "ws" else None
@@ -1293,7 +1300,7 @@ def run_pair_boom(run, case):
                                    cscript=script if victim == "client" else None, options=options, rng=rng, policy=policy)
     vb, ob = (sb, cb) if victim == "server" else (cb, sb)
     specs = gen_specs(rng, case["n"], "p")
-    if ckind != "open-raises":
+    if ckind not in OPEN_RAISES:
         if sb.opens != 1 or cb.opens != 1:
             run.violation(key + "/not-attached", "pair did not attach", {"escaped": _escapes(env, [s, c])}, case)
             return
